@@ -121,6 +121,26 @@ def enabled(w, groups=GROUPS, vcap=8, ncap=4, pair_cap=4):
             if any(x is None and i != 1 for i, x in enumerate(f[0])) and not vals:
                 continue
             ops.append(("new_node",) + f)
+    if "construct" in groups and nG < 3:
+        # Graph(...) over existing objects: every single role for every value, role pairs, node lists
+        for v in pv:
+            ops += [("new_graph", (v,), (), (), ()), ("new_graph", (), (v,), (), ()), ("new_graph", (), (), (), (v,)),
+                    ("new_graph", (v,), (v,), (), (v,)), ("new_graph", (v, v), (), (), ())]
+        for a, b in _pairs(pv[:3]):
+            if a != b:
+                ops += [("new_graph", (a,), (b,), (), ()), ("new_graph", (a,), (), (), (b,)), ("new_graph", (), (), (), (a, b))]
+        for n in pn:
+            ops += [("new_graph", (), (), (n,), ())]
+            outs0 = w.nodes[n].outputs
+            if len(outs0) and id(outs0[0]) in w._vslot:
+                ops += [("new_graph", (), (w._vslot[id(outs0[0])],), (n,), ())]
+            for v in pv[:2]:
+                ops += [("new_graph", (v,), (), (n,), ()), ("new_graph", (), (), (n,), (v,))]
+        for a, b in _pairs(pn):
+            if a != b:
+                ops += [("new_graph", (), (), (a, b), ())]
+        for n in pn[:2]:
+            ops += [("new_graph", (), (), (n, n), ())]
     if "rnv" in groups:
         for g in range(nG):
             for a in pn:
@@ -181,6 +201,9 @@ def op_signature(op):
         return f"rename[{op[2]!r}]"
     if name == "rename_values":
         return "rename_values[" + ",".join("nameof" if isinstance(x, (list, tuple)) else repr(x) for x in op[2]) + "]"
+    if name == "new_graph":
+        ins, outs, ns, inits = op[1:]
+        return f"new_graph[in={len(ins)},out={len(outs)},nodes={len(ns)},init={len(inits)}]"
     if name == "new_node":
         ins, no, outs, g, nm = op[1:]
         return f"new_node[outputs={'created' if outs is None else 'given'}]"
